@@ -61,7 +61,7 @@ static double verif_bits_f64(uint64_t u) { union { double f; uint64_t u; } x; x.
   __CPROVER_ensures((fs)->pos <= (fs)->len) \
   RB_FRAME(fs)
 
-#ifndef VERIF_NO_LOOP_CONTRACTS
+#if defined(VERIF_USE_LOOP_CONTRACTS)
 /* outer element loop of read_binary (the inner component loop is unwound to M first) */
 #define LOOP_array_read_binary_0 \
   __CPROVER_assigns(i, fs->pos, fs->failbit, fs->eofbit, verif_thrown, __CPROVER_object_whole(ptr)) \
@@ -89,7 +89,7 @@ size_t verif_p0;  /* ghost: stream position at entry (set by the harness; loop i
   /* frame: only the length and bytes at or after the entry length are written (earlier output is untouched) */ \
   __CPROVER_assigns((fs)->len, __CPROVER_object_from((fs)->buf + (fs)->len))
 size_t verif_l0;      /* ghost: output length at entry */
-#ifndef VERIF_NO_LOOP_CONTRACTS
+#if defined(VERIF_USE_LOOP_CONTRACTS)
 #define LOOP_array_write_binary_0 \
   __CPROVER_assigns(i, fs->len, __CPROVER_object_from(fs->buf + verif_l0)) \
   __CPROVER_loop_invariant(i <= o->m_size) \
